@@ -212,19 +212,27 @@ type knownEntry struct {
 
 func loadKnown(id string) map[string]knownEntry {
 	m := map[string]knownEntry{}
-	b, err := os.ReadFile(filepath.Join(verifDir(), "known_findings.json"))
-	if err != nil {
-		return m
+	files := []string{filepath.Join(verifDir(), "known_findings.json")}
+	if x := os.Getenv("VERIF_KNOWN_EXTRA"); x != "" {
+		// development aid only: a second, not yet merged findings file
+		files = append(files, x)
 	}
-	var f struct {
-		Findings []knownEntry `json:"findings"`
-	}
-	if json.Unmarshal(b, &f) != nil {
-		return m
-	}
-	for _, e := range f.Findings {
-		if e.Property == id && e.Status == "open" {
-			m[e.Key] = e
+	for _, fn := range files {
+		b, err := os.ReadFile(fn)
+		if err != nil {
+			continue
+		}
+		var f struct {
+			Findings []knownEntry `json:"findings"`
+		}
+		if err := json.Unmarshal(b, &f); err != nil {
+			fmt.Fprintf(os.Stderr, "HARNESS-ERROR: %s does not parse: %v\n", fn, err)
+			os.Exit(2)
+		}
+		for _, e := range f.Findings {
+			if e.Property == id && e.Status == "open" {
+				m[e.Key] = e
+			}
 		}
 	}
 	return m
